@@ -94,6 +94,37 @@ func randBundle(r *Rng, ver bver.Version, n int) *bundle.Bundle {
 	if ver == bver.VersionB1 && r.Chance(1, 3) {
 		b.ManifestURL = mustURL("https://example.com/manifest.json")
 	}
+	// things the reader refuses: the writer must refuse them too
+	if n > 0 && r.Chance(1, 6) {
+		e := b.Exchanges[r.Intn(n)]
+		switch r.Intn(9) {
+		case 0:
+			e.Response.Header["X-Note"] = []string{[]string{"caf\u00e9", "\xff", "a\x80b", "ok", "\x7f"}[r.Intn(5)]}
+		case 1:
+			e.Response.Header[[]string{"X-\u00e9", "x-\xff", "\u212a-Kelvin", "X-Fine"}[r.Intn(4)]] = []string{"v"}
+		case 2:
+			e.Response.Header[[]string{":foo", ":path", ":", ":STATUS", "a:b"}[r.Intn(5)]] = []string{"v"}
+		case 3:
+			e.Response.Status = []int{99, 1000, 0, -5, 10000, 100, 999}[r.Intn(7)]
+		case 4:
+			u := e.Request.URL.String()
+			if strings.HasPrefix(u, "https://") {
+				e.Request.URL = mustURL([]string{u + "#frag", u + "#", "https://u:p@" + u[8:], "https://u@" + u[8:], "https://@" + u[8:], "https://:@" + u[8:], u + "?q=\xff", "https://example.com/\xc3?x"}[r.Intn(8)])
+			}
+		case 5:
+			b.PrimaryURL = mustURL([]string{"https://example.com/p#frag", "https://u:p@example.com/", "/relative", "", "https://example.com/p#", "mailto:x@example.com", "//{", "https://example.com/?\xff"}[r.Intn(8)])
+		case 6:
+			if ver == bver.VersionB1 {
+				b.ManifestURL = mustURL([]string{"https://example.com/m#frag", "https://u:p@example.com/m", "/relative.json", "", "https://example.com/m"}[r.Intn(5)])
+			}
+		case 7:
+			if ver == bver.VersionB1 {
+				b.PrimaryURL = nil
+			}
+		case 8:
+			e.Response.Header["X-Multi"] = []string{"a", "caf\u00e9"}
+		}
+	}
 	if r.Chance(1, 4) {
 		sg := &bundle.Signatures{}
 		for i := r.Intn(3); i > 0; i-- {
@@ -534,6 +565,29 @@ func genC05(r *Rng, tier string) []Case {
 					c := clone()
 					c.entries[ei].count = u64p(v)
 					read(c.build())
+				}
+			}
+			// two index entries at the same offset: the same length (legitimate sharing) and
+			// different lengths (each entry must be checked with its own length)
+			for ei := range base.entries {
+				for ej := range base.entries {
+					if ei == ej {
+						continue
+					}
+					li, lj := base.entries[ei].locs[0], base.entries[ej].locs[0]
+					for _, ln := range []uint64{li[1], lj[1], li[1] - 1, li[1] + 1, 1} {
+						c := clone()
+						c.entries[ej].locs[0] = [2]uint64{li[0], ln}
+						read(c.build())
+					}
+					// both entries share one response: editing what Read returned for one of them
+					// must not show through the other
+					c := clone()
+					c.entries[ej].locs[0] = li
+					built := c.build()
+					for k := 0; k < len(base.entries); k++ {
+						cs = append(cs, Case{"bundle_read_edit", []Sx{B(built), x509SigTab(built), Zi(int64(k))}})
+					}
 				}
 			}
 			// offsets that wrap around 2^64: 2^64-k for k up to and beyond the distance back to the file start
